@@ -739,6 +739,18 @@ class C18(runner.Check):
             ("to_json", lambda a: json.loads(ak.to_json(a))),
             ("iter", lambda a: [ak.to_list(x) for x in a]),
             ("sort", lambda a: ak.to_list(ak.sort(a, axis=-1))),
+            ("sort-default", lambda a: ak.to_list(ak.sort(a))),
+            ("sort0", lambda a: ak.to_list(ak.sort(a, axis=0))),
+            ("sort-2", lambda a: ak.to_list(ak.sort(a, axis=-2))),
+            ("sort-desc", lambda a: ak.to_list(ak.sort(a, axis=-1, ascending=False))),
+            ("argsort-default", lambda a: ak.to_list(ak.argsort(a))),
+            ("argsort0", lambda a: ak.to_list(ak.argsort(a, axis=0))),
+            ("argsort-2", lambda a: ak.to_list(ak.argsort(a, axis=-2))),
+            ("take-argsort", lambda a: ak.to_list(a[ak.argsort(a)])),
+            ("sum0", lambda a: ak.to_list(ak.sum(a, axis=0))),
+            ("max0", lambda a: ak.to_list(ak.max(a, axis=0))),
+            ("argmax0", lambda a: ak.to_list(ak.argmax(a, axis=0))),
+            ("mask-self", lambda a: ak.to_list(a[ak.num(a, axis=-1) >= 0]) if a.ndim > 1 else ak.to_list(a[a >= 2])),
             ("argmax", lambda a: ak.to_list(ak.argmax(a, axis=-1))),
             ("concatenate", lambda a: ak.to_list(ak.concatenate([a, a]))),
             ("zip", lambda a: ak.to_list(ak.zip({"p": a, "q": a}))),
@@ -772,7 +784,8 @@ class C18(runner.Check):
                          failure=what, op=name, **tag)
 
     def _l3_arrays(self, ak, tier):
-        out = [[[1, 2, 3], [], [4, 5]], [[1.5], [2.5, 3.5], [], [4.5]], [[], [], []], [[1, 2], [3, 4], [5, 6], [7, 8]]]
+        out = [[[1, 2, 3], [], [4, 5]], [[1.5], [2.5, 3.5], [], [4.5]], [[], [], []], [[1, 2], [3, 4], [5, 6], [7, 8]],
+               [30, 10, 20, 0, 50, 40], [[5, 1], [3, 6], [4, 2], [0, 7]], [[2, 9], [7], [1, 8, 3]]]
         if tier != "quick":
             out += [[[1, None], [], [None]], [[[1], []], [[2, 3]], []]]
         return out
